@@ -285,6 +285,12 @@ def run(ctx, progs):
     for o in sub.obs:
         if "rollback" in o.key:
             ctx.ob("R04.b", o.key.replace("R02.c", "R04.b"), o.ok, o.what, o.where, o.detail)
+    # R04.e / R04.f = R05.c / R05.d: the upsert / delete fold addresses old copies through a handle's cached id -> (segment, ordinal)
+    # map, which is trusted while the manifest's maximum generation is unchanged; a re-used or decreasing generation makes
+    # tombstones point at segments that no longer exist (deletes lost, upserts duplicated)
+    from sa.rules.C05 import r05c, r05d
+    r05c(ctx, P, rid="R04.e")
+    r05d(ctx, P, rid="R04.f")
     if ctx.tier == "thorough":
         ctx.config = "features"
         Pf = progs.get("features")
